@@ -180,10 +180,22 @@ def find_range(src: str, m: str, impl_regex: str, fn_name: str, start_re: str, e
     if len(s_hits) != 1:
         raise AnchorError(f'range start /{start_re}/ in fn {fn_name} matched {len(s_hits)} lines')
     si = s_hits[0]
-    e_hits = [i for i, ln in enumerate(lines) if i >= si and re.search(end_re, ln)]
-    if not e_hits:
-        raise AnchorError(f'range end /{end_re}/ in fn {fn_name} not found after start')
-    ei = e_hits[0]
+    if end_re == '@stmt':
+        # the statement that starts on the START line: up to the first line ending with ';' at balanced depth
+        ei = None
+        for i in range(si, len(lines)):
+            seg = m[offs[si]:offs[i] + len(lines[i])]
+            if seg.count('{') == seg.count('}') and seg.count('(') == seg.count(')') and seg.rstrip().endswith(';'):
+                ei = i
+                break
+        if ei is None:
+            raise AnchorError(f'statement starting at /{start_re}/ in fn {fn_name} does not end')
+        e_hits = [ei]
+    else:
+        e_hits = [i for i, ln in enumerate(lines) if i >= si and re.search(end_re, ln)]
+        if not e_hits:
+            raise AnchorError(f'range end /{end_re}/ in fn {fn_name} not found after start')
+        ei = e_hits[0]
     if exclusive:
         ei -= 1
         while ei > si and not lines[ei].strip():
